@@ -5,6 +5,10 @@
   group: exactly the nodes constructible through the public API (DESIGN.md section 2, D26).
   In the sorted representation two nodes have "the same kind and the same content" iff
   they are equal as terms, so the property reads `equals x y = true ↔ x = y`.
+  "The two share no state" is stated and proved on the heap-level model (section "Pointer
+  level" below: `heap_clone_prefix`, `heap_clone_fresh`, `heap_clone_abs`,
+  `heap_clone_independent…`) and tied to the code by the sharing-map correspondence of
+  harness/heap_share.go.
 -/
 import YtkProofs.Equal
 import YtkProofs.Heap
